@@ -264,11 +264,16 @@ package playlist
 // C14: every textual attribute is read into the field it is written from (ghost enumeration of the attribute map)
 //@   loop 1 invariant 0 <= iterpos() && iterpos() <= iterlen()
 //@   loop 1 invariant forall(j, (0 <= j && j < iterpos()) ==> (iterkey(j) == "URI" ==> t.URI == attrs[iterkey(j)]))
+//@   loop 1 invariant forall(j, (0 <= j && j < iterpos()) ==> ((iterkey(j) == "BYTERANGE-START" ==> t.ByteRangeStart == parseuint(attrs[iterkey(j)], 10, 64))
+//@        && (iterkey(j) == "BYTERANGE-LENGTH" ==> (t.ByteRangeLength != nil && *t.ByteRangeLength == parseuint(attrs[iterkey(j)], 10, 64)))))
+//@   loop 1 invariant t.ByteRangeLength == nil || t.ByteRangeLength == old(t.ByteRangeLength) || fresh(t.ByteRangeLength)
 //@ end
 
 //@ func MediaSkip.unmarshal
 //@   props C14 C15
 //@   modifies *t
+//@   loop 1 invariant 0 <= iterpos() && iterpos() <= iterlen()
+//@   loop 1 invariant forall(j, (0 <= j && j < iterpos()) ==> (iterkey(j) == "SKIPPED-SEGMENTS" ==> (skipSegFound && t.SkippedSegments == parseuint(attrs[iterkey(j)], 10, 31))))
 //@ end
 
 //@ func MediaServerControl.unmarshal
@@ -324,6 +329,13 @@ package playlist
 //@   loop 1 invariant forall(j, (0 <= j && j < iterpos()) ==> ((iterkey(j) == "RESOLUTION" ==> v.Resolution == attrs[iterkey(j)]) && (iterkey(j) == "VIDEO" ==> v.Video == attrs[iterkey(j)])
 //@        && (iterkey(j) == "AUDIO" ==> v.Audio == attrs[iterkey(j)]) && (iterkey(j) == "SUBTITLES" ==> v.Subtitles == attrs[iterkey(j)])
 //@        && (iterkey(j) == "CLOSED-CAPTIONS" ==> v.ClosedCaptions == attrs[iterkey(j)])))
+// numeric attributes: the field holds the number strconv parsed from that attribute's own text (parseuint / parsefloat: the
+// library's result as an uninterpreted function of the text)
+//@   loop 1 invariant forall(j, (0 <= j && j < iterpos()) ==> ((iterkey(j) == "BANDWIDTH" ==> v.Bandwidth == parseuint(attrs[iterkey(j)], 10, 31))
+//@        && (iterkey(j) == "AVERAGE-BANDWIDTH" ==> (v.AverageBandwidth != nil && *v.AverageBandwidth == parseuint(attrs[iterkey(j)], 10, 31)))
+//@        && (iterkey(j) == "FRAME-RATE" ==> (v.FrameRate != nil && *v.FrameRate == parsefloat(attrs[iterkey(j)], 64)))))
+//@   loop 1 invariant v.AverageBandwidth == nil || v.AverageBandwidth == old(v.AverageBandwidth) || fresh(v.AverageBandwidth)
+//@   loop 1 invariant v.FrameRate == nil || v.FrameRate == old(v.FrameRate) || fresh(v.FrameRate)
 //@ end
 
 //@ func Media.Unmarshal
